@@ -10,7 +10,7 @@ from .rel_mr import MR, _dyn_args
 class Dyn(Contract):
     prop = 'C08'
     n = 1
-    tol = 1e-8
+    tol = 1e-7
     max_paths = 120
     timeout = 40.0
 
@@ -67,8 +67,6 @@ class _Passivity(Dyn):
     under_contract = (MR + ':MassMatrix',)
 
     def run(self, g, fn, args, kwargs):
-        if not g.symbolic:
-            return None
         mr = g.module(MR)
         n = self.n
         th, dth, ddth, grav, F, Ml, Gl, Sl = _dyn_args(g, n, 'InverseDynamics')
@@ -76,6 +74,12 @@ class _Passivity(Dyn):
             g.require(th[k] >= 0.01)          # outside the exponential's cut-off, where FK is differentiable
         cp = lambda x: x.copy() if isinstance(x, _np.ndarray) else [y.copy() for y in x]
         c = mr.VelQuadraticForces(cp(th), cp(dth), cp(Ml), cp(Gl), cp(Sl))
+        if not g.symbolic:
+            # native replay: Mdot along qd by central differences
+            h = 1e-6
+            Mp = mr.MassMatrix(_np.array(th) + h * _np.array(dth), cp(Ml), cp(Gl), cp(Sl))
+            Mm = mr.MassMatrix(_np.array(th) - h * _np.array(dth), cp(Ml), cp(Gl), cp(Sl))
+            return c, (Mp - Mm) / (2 * h), dth
         thd = _np.empty(n, dtype=object)
         for k in range(n):
             thd[k] = T.Dual(th[k], dth[k])
@@ -92,11 +96,11 @@ class _Passivity(Dyn):
         c, Mdot, dth = out
         n = self.n
         lhs = S.dotv(list(dth), list(c))
-        quad = T.ZERO
+        quad = 0 * dth[0]
         for i in range(n):
             for j in range(n):
                 quad = quad + dth[i] * Mdot[i, j] * dth[j]
-        g.eq('qd . c = 1/2 qd^T Mdot qd', lhs, quad / 2)
+        g.eq('qd . c = 1/2 qd^T Mdot qd', lhs, quad / 2, tol=None if g.symbolic else 1e-5)
 
 
 register(type('Dyn_passivity_1', (_Passivity,), dict(n=1)))
